@@ -299,6 +299,12 @@ Inductive op :=
 | SSub (r r' : N)
 | SFormat (r : N) (style : N)
 | SSerde (r r' : N)
+| OIterNth (r : N) (kind : N) (pre nk : nat)
+| ODrainNth (r : N) (pre nk : nat)
+| OIntoNth (r : N) (kind : N) (pre nk : nat)
+| SIterNth (r : N) (pre nk : nat)
+| SDrainNth (r : N) (pre nk : nat)
+| SIntoNth (r : N) (pre nk : nat)
 | OBad.
 
 Section Step.
@@ -457,6 +463,95 @@ Definition into_session (kind : N) (take : nat) (fate : N) : Mm (list N) :=
            else if N.eqb fate 2 then (n <- finally_drop Em (into_for_each kind (S l) 0) ;; ret [nn n])
            else ret []) ;;
   ret (acc ++ d0 ++ d1 ++ [nn l] ++ tail).
+
+(* --- Iterator::nth (the library default: n calls of next() whose items are
+       destroyed inside nth, then one more call) on every iterator kind;
+       skip(n) and step_by are built on it.  Observed: len before, the item
+       nth returns, len after, one more next() (None must stay None), len. --- *)
+Section NthSessions.
+Context {V : Type} (E : env key V query cstate).
+Notation MV := (M key V cstate).
+
+Fixpoint b_skip (n : nat) (c : cursor) : MV cursor :=
+  match n with
+  | 0 => ret c
+  | S n' => '(_, c') <- iter_next c ;; b_skip n' c'
+  end.
+Fixpoint b_nth (n : nat) (c : cursor) : MV (option nat * cursor) :=
+  match n with
+  | 0 => iter_next c
+  | S n' => '(o, c') <- iter_next c ;;
+            match o with None => ret (None, c') | Some _ => b_nth n' c' end
+  end.
+Definition r_slot_item (proj : key * V -> list N) (o : option nat) : MV (list N) :=
+  match o with
+  | None => ret [0%N]
+  | Some i => p <- p_ref i ;; ret ([1%N; nn i] ++ proj p)
+  end.
+Definition iter_nth_session (proj : key * V -> list N) (pre nk : nat) : MV (list N) :=
+  c <- iter ;;
+  c1 <- b_skip pre c ;;
+  '(o, c2) <- b_nth nk c1 ;;
+  r <- r_slot_item proj o ;;
+  '(o2, c3) <- iter_next c2 ;;
+  r2 <- r_slot_item proj o2 ;;
+  ret ([nn (cursor_len c1)] ++ r ++ [nn (cursor_len c2)] ++ r2 ++ [nn (cursor_len c3)]).
+
+Fixpoint d_skip (n : nat) (c : cursor) : MV cursor :=
+  match n with
+  | 0 => ret c
+  | S n' => '(_, c') <- drain_next c ;; d_skip n' c'     (* the caller receives and keeps the item *)
+  end.
+Fixpoint d_nth (n : nat) (c : cursor) : MV (option (key * V) * cursor) :=
+  match n with
+  | 0 => drain_next c
+  | S n' => '(o, c') <- drain_next c ;;
+            match o with None => ret (None, c') | Some p => drop_pair E p ;; d_nth n' c' end
+  end.
+Definition r_opt_item (rp : key * V -> list N) (o : option (key * V)) : list N :=
+  match o with None => [0%N] | Some p => 1%N :: rp p end.
+Definition drain_nth_session (rp : key * V -> list N) (pre nk : nat) : MV (list N) :=
+  c <- drain ;;
+  c1 <- d_skip pre c ;;
+  '(o, c2) <- d_nth nk c1 ;;
+  '(o2, c3) <- drain_next c2 ;;
+  drain_drop E c3 ;;
+  ret ([nn (cursor_len c1)] ++ r_opt_item rp o ++ [nn (cursor_len c2)] ++ r_opt_item rp o2 ++ [nn (cursor_len c3)]).
+
+(* consuming iterators: [item p] is what next() does to the popped pair before
+   yielding (into_keys destroys the value, into_values the key); [rest p] destroys
+   what nth received and skips *)
+Section Into.
+Context (item : key * V -> MV (list N)) (rest : key * V -> MV unit).
+Fixpoint i_skip (n : nat) : MV unit :=
+  match n with
+  | 0 => ret tt
+  | S n' => o <- into_iter_next ;;
+            match o with None => ret tt | Some p => _ <- item p ;; i_skip n' end
+  end.
+Fixpoint i_nth (n : nat) : MV (list N) :=
+  match n with
+  | 0 => o <- into_iter_next ;;
+         match o with None => ret [0%N] | Some p => r <- item p ;; ret (1%N :: r) end
+  | S n' => o <- into_iter_next ;;
+            match o with None => ret [0%N] | Some p => _ <- item p ;; rest p ;; i_nth n' end
+  end.
+Definition into_nth_session (pre nk : nat) : MV (list N) :=
+  i_skip pre ;;
+  l1 <- get_len ;;
+  r <- i_nth nk ;;
+  l2 <- get_len ;;
+  r2 <- i_nth 0 ;;
+  l3 <- get_len ;;
+  drop_map E ;;
+  ret ([nn l1] ++ r ++ [nn l2] ++ r2 ++ [nn l3]).
+End Into.
+End NthSessions.
+
+Definition into_rest (kind : N) (p : key * vobj) : Mm unit :=
+  if N.eqb kind 1 then drop_key Em (fst p)
+  else if N.eqb kind 2 then drop_val Em (snd p)
+  else drop_pair Em p.
 
 (* --- entry chains --- *)
 Definition r_slotval (tag : N) (i : nat) : Mm (list N) :=
@@ -803,6 +898,19 @@ Definition step (o : op) (x : xworld) : list N * xworld :=
       let src := get_s r x in
       run_s r' (replace_with Es (finally_drop Es (visit_seq (List.map fst (elems src))))
                              [nn (len src); nn (length (elems src))]) x
+  | OIterNth r kind pre nk => run_m r (iter_nth_session (r_item kind) pre nk) x
+  | ODrainNth r pre nk => run_m r (drain_nth_session Em r_pair pre nk) x
+  | OIntoNth r kind pre nk =>
+      run_m r (c <- get_cap ;; old <- get_self ;; put_self (new_map c) ;;
+               '(body, _) <- swap_self old (into_nth_session Em (into_steps_item kind) (into_rest kind) pre nk) ;;
+               ret body) x
+  | SIterNth r pre nk => run_s r (iter_nth_session r_spair pre nk) x
+  | SDrainNth r pre nk => run_s r (drain_nth_session Es r_spair pre nk) x
+  | SIntoNth r pre nk =>
+      run_s r (c <- get_cap ;; old <- get_self ;; put_self (new_map c) ;;
+               '(body, _) <- swap_self old
+                  (into_nth_session Es (fun p => ret (r_key (fst p))) (fun p => drop_key Es (fst p)) pre nk) ;;
+               ret body) x
   | OBad => ([9%N], x)
   end.
 
@@ -887,6 +995,12 @@ Definition decode (l : list N) : op :=
   | 62%N :: r :: arr :: n :: t => if q_ok r then OFromIter r (N.eqb arr 1) (dec_items (nat_of n) t) else OBad
   | [64; r; style]%N => if q_ok r then OFormat r style else OBad
   | [66; r; r']%N => if q_ok r && q_ok r' then OSerde r r' else OBad
+  | [42; r; kind; pre; nk]%N => if q_ok r then OIterNth r kind (nat_of pre) (nat_of nk) else OBad
+  | [43; r; pre; nk]%N => if q_ok r then ODrainNth r (nat_of pre) (nat_of nk) else OBad
+  | [44; r; kind; pre; nk]%N => if q_ok r then OIntoNth r kind (nat_of pre) (nat_of nk) else OBad
+  | [142; r; pre; nk]%N => if s_ok r then SIterNth r (nat_of pre) (nat_of nk) else OBad
+  | [143; r; pre; nk]%N => if s_ok r then SDrainNth r (nat_of pre) (nat_of nk) else OBad
+  | [144; r; pre; nk]%N => if s_ok r then SIntoNth r (nat_of pre) (nat_of nk) else OBad
   | [110; r; a; b]%N => if s_ok r then SInsert r (mk a b) else OBad
   | [111; r; a; b]%N => if s_ok r then SReplace r (mk a b) else OBad
   | 123%N :: r :: t => match dec_query t with Some (q, []) => if s_ok r then SContains r q else OBad | _ => OBad end
